@@ -241,7 +241,9 @@ func c18Exec(st *c18Step, ctxs []*apd.Context, pool []*apd.Decimal) string {
 		if x.Form == apd.Finite && (x.Exponent > 300 || x.Exponent < -300) {
 			return string(x.Append(make([]byte, 0, 8), 'E'))
 		}
-		return string(x.Append(nil, "eEfgG"[st.aux&3])) + fmt.Sprintf("%s|%q|%08.2e|% g|%x", x, x, x, x, x)
+		// field widths far beyond the text (padding is produced by the package)
+		w := []int{70, 130, 260, 520, 1030, 2100}[int(st.aux+8)%6]
+		return string(x.Append(nil, "eEfgG"[st.aux&3])) + fmt.Sprintf("%s|%q|%08.2e|% g|%x", x, x, x, x, x) + fmt.Sprintf("|%*v|%-*v|%0*v", w, x, w+3, x, w+7, x)
 	case op == "ReduceDec":
 		_, n := d.Reduce(x)
 		return fmt.Sprint(meaningful(br.FromApd(&d)), n)
@@ -295,7 +297,7 @@ func parseRaceLogs(prefix string) (blocks int, distinct map[string]int, first st
 }
 
 func runC18(r *mon.Run) {
-	r.Rule = "rounds of G goroutines (G in {4,16,64}, GOMAXPROCS in {2,16}) released by a barrier; all share 3 Contexts and a pool of ~70 operand " +
+	r.Rule = "a cold-start phase (16 goroutines do the same first-touch work - growing field widths, big powers of ten, logarithm constants, condition texts - as the first use of the package in the process), then rounds of G goroutines (G in {4,16,64}, GOMAXPROCS in {2,16}) released by a barrier; all share 3 Contexts and a pool of ~70 operand " +
 		"Decimals (inline <=64-bit, inline 65..128-bit, heap-backed, heap-backed-but-small, far-apart exponents that need powers of ten beyond " +
 		"the lookup table - different ones every round -, zeros, NaN/sNaN/Inf, small values for the transcendental functions); each goroutine " +
 		"runs a seeded sequence over the 22 Context operations and 21 read-only Decimal/BigInt method groups (Modf with either part nil, shared coefficients as BigInt arguments, Rounder, Append/Format) with private destinations; the shared Contexts carry different trap sets (none, DefaultTraps, Inexact|Rounded, all, underflow group, random). " +
@@ -327,6 +329,72 @@ func runC18(r *mon.Run) {
 	var pairMu sync.Mutex
 	fp0, _ := apd.VerifSharedState()
 	startOrders := map[string]bool{}
+	// Cold start: the first thing this process does with the package is to have
+	// 16 goroutines do the same first-touch work at once - field widths that grow
+	// step by step, powers of ten beyond the table, the logarithm constants at
+	// several precisions, every condition's text - so that whatever is built or
+	// grown lazily is built or grown while other goroutines are using it.
+	r.Serial("cold-start", func(t *mon.T) {
+		rr := rng.New(r.Seed, "c18-cold", 0)
+		runtime.GOMAXPROCS(16)
+		vals := []*apd.Decimal{br.ToApd(dec.FromInt(rr.Range(1, 99999), -2)), br.ToApd(dec.D{Form: dec.Finite, Neg: true, C: big.NewInt(rr.Range(1, 1<<50)), E: -7}),
+			br.ToApd(dec.Special(dec.Inf, true)), br.ToApd(dec.Special(dec.NaN, false))}
+		big1, _ := new(big.Int).SetString(gen.Digits(rr, 700), 10)
+		long := br.ToApd(dec.D{Form: dec.Finite, C: big1, E: -300})
+		three := br.ToApd(dec.FromInt(3, 0))
+		work := func() []string {
+			var out []string
+			for _, w := range []int{70, 130, 260, 520, 1030, 2100, 4200} {
+				for _, v := range vals {
+					out = append(out, fmt.Sprintf("%*v|%-*v|%0*v|%+*.3f", w, v, w+1, v, w+2, v, w+3, v))
+				}
+			}
+			for _, p := range []int64{40, 150, 300, 700} {
+				ctx := br.Context(dec.Ctx{P: p, Emin: -100000, Emax: 100000, Mode: "half_even"}, apd.Inexact|apd.Rounded|apd.Underflow)
+				var d apd.Decimal
+				res, err := ctx.Ln(&d, three)
+				out = append(out, d.String()+br.FlagNames(res)+fmt.Sprint(err))
+				res, err = ctx.Log10(&d, three)
+				out = append(out, d.String()+br.FlagNames(res)+fmt.Sprint(err))
+				res, err = ctx.Round(&d, long)
+				out = append(out, d.String()+br.FlagNames(res)+fmt.Sprint(err))
+			}
+			for m := 0; m < 4096; m += 37 {
+				c := apd.Condition(m)
+				_, err := c.GoError(apd.Condition(m * 7 & 4095))
+				out = append(out, c.String()+fmt.Sprint(err))
+			}
+			out = append(out, fmt.Sprint(long.NumDigits()), long.String(), long.Text('f'))
+			return out
+		}
+		const G = 16
+		outs := make([][]string, G)
+		barrier := make(chan struct{})
+		var wg sync.WaitGroup
+		for g := 0; g < G; g++ {
+			wg.Add(1)
+			go func(g int) {
+				defer wg.Done()
+				<-barrier
+				outs[g] = work()
+			}(g)
+		}
+		close(barrier)
+		wg.Wait()
+		want := work()
+		for g := range outs {
+			for i := range want {
+				t.Eval()
+				if i >= len(outs[g]) || outs[g][i] != want[i] {
+					t.Fail("concurrent-result-differs", map[string]interface{}{"phase": "cold-start", "goroutine": g, "item": i, "sequential": clip(want[i])})
+					break
+				}
+			}
+		}
+		t.Count("cold-start")
+		runtime.GOMAXPROCS(runtime.NumCPU())
+	})
+	r.Require("cold-start", 1)
 	r.Serial("rounds", func(t *mon.T) {
 		for round := 0; round < rounds; round++ {
 			rr := rng.New(r.Seed, "c18-round", int64(round))
